@@ -135,8 +135,8 @@ fn check(case: &Case, obs: &mut Obs) -> Verdict {
                     obs.label("rejected");
                     let want = if bytes.len() != size { HpkeError::IncorrectInputLength(size, bytes.len()) } else { HpkeError::ValidationError };
                     ensure!(e == want, "C12/error-kind", "{}: {} bytes rejected with {:?}, expected {:?}", tname, bytes.len(), e, want);
-                    // only NIST keys have invalid right-length encodings
-                    ensure!(bytes.len() != size || (kem != KemId::X25519 && kind != SerKind::Tag), "C12/rejected-right-length", "{}: a {}-byte input was rejected although every string of that length is a valid encoding: {:?}", tname, size, e);
+                    // (whether a right-length string may be rejected is C09's / C10's question, not C12's:
+                    // the property constrains what is accepted and how wrong lengths are reported)
                     Verdict::Pass
                 }
             }
